@@ -12,6 +12,7 @@ from concurrent.futures import ThreadPoolExecutor
 
 REPO = "/repo"
 SCRATCH = "/tmp/mut"
+BASE = "/tmp/mut/base"      # snapshot of /repo taken when the campaign starts: all mutants of one campaign share it
 OUTFILE = "/verif/seeded/mutation_campaign.jsonl"
 QUICK_ORDER = ["C20", "C19", "C09", "C18", "C08", "C15", "C12", "C16", "C10", "C11", "C14", "C01", "C04", "C05", "C03", "C06", "C17",
                "C13", "C02", "C07"]
@@ -91,7 +92,7 @@ def evaluate(job):
     mid, mut, pids, nproc = job
     d = f"{SCRATCH}/{mid}"
     shutil.rmtree(d, ignore_errors=True)
-    shutil.copytree(REPO, d, ignore=shutil.ignore_patterns(".git", "__pycache__", "*.pyc"))
+    shutil.copytree(BASE, d)
     p = os.path.join(d, mut["file"])
     lines = open(p).read().splitlines(keepends=True)
     assert lines[mut["line"] - 1].rstrip("\n") == mut["old"]
@@ -139,6 +140,9 @@ def main():
     ap.add_argument("--seed", type=int, default=0)
     ap.add_argument("--files", nargs="*")
     a = ap.parse_args()
+    os.makedirs(SCRATCH, exist_ok=True)
+    shutil.rmtree(BASE, ignore_errors=True)
+    shutil.copytree(REPO, BASE, ignore=shutil.ignore_patterns(".git", "__pycache__", "*.pyc"))
     anc = anchors()
     files = a.files or sorted(anc)
     rng = random.Random(a.seed)
@@ -150,7 +154,7 @@ def main():
     jobs = []
     for f in files:
         f = f if f.startswith("polyply/") else "polyply/src/" + f
-        text = open(os.path.join(REPO, f)).read()
+        text = open(os.path.join(BASE, f)).read()
         ms = [m for m in mutants_of(f, text) if (m["file"], m["line"], m["op"], m["occurrence"]) not in done]
         rng.shuffle(ms)
         # at most one mutant per line, spread over the file
